@@ -71,6 +71,42 @@ def cases(tier, seed):
             for d in (1, 2):
                 for seq in itertools.product(dsops, repeat=d):
                     yield {'cls': name, 'ds': cs_ds, 'ops': list(seq), 'from_cs': True}
+            # ... and around a command set as it was received (relay): raw elements, values padded as the peer liked
+            for op in ('dataset_none', 'dataset_longer'):
+                yield {'cls': name, 'ds': cs_ds, 'ops': [op], 'from_cs': True, 'from_wire': True}
+
+
+def _as_received(command_set):
+    """The command set as it is after having been RECEIVED from a peer that pads the way PS3.5 allows: AE values padded to 16
+    characters, LO values with trailing spaces, UI values NUL-padded to even length; written here element by element in implicit
+    VR little endian (group length correct) and decoded by the library's own decoder - a relay sends such an object on."""
+    import struct
+    from pynetdicom2 import dsutils
+    body = b''
+    for el in sorted(command_set, key=lambda e: int(e.tag)):
+        if int(el.tag) == 0x00000000:
+            continue
+        v = el.value
+        if el.VR == 'US':
+            vals = v if isinstance(v, (list, tuple)) or hasattr(v, '__iter__') and not isinstance(v, (str, bytes)) else [v]
+            raw = b''.join(struct.pack('<H', int(x)) for x in vals) if v not in (None, '') else b''
+        elif el.VR == 'UL':
+            raw = struct.pack('<L', int(v)) if v not in (None, '') else b''
+        elif el.VR == 'AT':
+            vals = v if hasattr(v, '__iter__') and not isinstance(v, (str, bytes)) else ([] if v in (None, '') else [v])
+            raw = b''.join(struct.pack('<HH', int(t) >> 16, int(t) & 0xFFFF) for t in vals)
+        elif el.VR == 'AE':
+            raw = str(v or '').encode('ascii').ljust(16) if v not in (None, '') else b''
+        elif el.VR == 'UI':
+            raw = str(v or '').encode('ascii')
+            raw += b'\0' * (len(raw) % 2)
+        else:
+            raw = str(v or '').encode('ascii')
+            raw = raw + b'    ' if raw else raw
+            raw += b' ' * (len(raw) % 2)
+        body += struct.pack('<HHL', el.tag.group, el.tag.element, len(raw)) + raw
+    data = struct.pack('<HHLL', 0, 0, 4, len(body)) + body
+    return dsutils.decode(data, True, True)
 
 
 def run_case(case):
@@ -129,7 +165,9 @@ def run_case(case):
             viol.append(('c08:%s:changed-after-send' % name, 'message sent, then %s applied to the object before the provider consumed it: %s on the wire, '
                          'as sent it was %s' % (op, got.hex()[:80] if isinstance(got, bytes) else got, ref.hex()[:80])))
         return {'viol': viol, 'case': case if viol else None, 'key': (name, 'defer', op, bool(case['ds']))}
-    if case.get('from_cs'):
+    if case.get('from_wire'):
+        msg = type(msg)(_as_received(msg.command_set))
+    elif case.get('from_cs'):
         import copy
         msg = type(msg)(copy.deepcopy(msg.command_set))
     with stubs.patched_dul():
